@@ -185,10 +185,19 @@ def build_pair(item):
 
 def impl_script(item):
     """item: {'a': json value, 'b': json value, 'opts': [dict strategy, list mode]}"""
+    return run_script(lambda: build_pair(item)[:2])
+
+
+def run_script(build, unwrap=None, ser_top=None):
+    """build() -> (a, b), fresh trees on every call.  unwrap(node) -> the node whose children are named by the
+    oracle paths (identity by default; C09 unwraps PLISTNode); ser_top(edit) serialises the top-level edit
+    (ser_edit by default)."""
     import graphtage as g
     from graphtage.multiset import MultiSetEdit
     _quiet()
-    a, b, _ = build_pair(item)
+    unwrap = unwrap or (lambda n: n)
+    ser_top = ser_top or ser_edit
+    a, b = build()
     created = []
     orig_init = MultiSetEdit.__init__
 
@@ -201,7 +210,7 @@ def impl_script(item):
         # the library's own driving loop (TreeNode.diff / get_all_edit_contexts)
         while edit.valid and not edit.is_complete() and edit.tighten_bounds():
             pass
-        script = ser_edit(edit)
+        script = ser_top(edit)
         # oracle: the matchings the implementation computed; edits it never had to match are forced now
         # (their results are not compared; they only complete the oracle for non-selected alternatives)
         done = 0
@@ -214,7 +223,7 @@ def impl_script(item):
                 _tighten(edge)
             for kv in ms._matched_kvp_edits:
                 _tighten(kv)
-        pa, pb = paths_of(a), paths_of(b)
+        pa, pb = paths_of(unwrap(a)), paths_of(unwrap(b))
         matchings = []
         for ms in created:
             m = ms._matcher
@@ -240,17 +249,17 @@ def impl_script(item):
         for x in s[3]:
             if x[0] == 'pair':
                 walk(x[3], p + [x[1]], q + [x[2]])
-    walk(script, [], [])
+    walk(script if script[0] != 'plist2' else script[1], [], [])
     # the other views of the total (fresh trees: the views must not share state)
-    a2, b2, _ = build_pair(item)
+    a2, b2 = build()
     flat = 0
     for e in a2.get_all_edits(b2):
         _tighten(e)
         flat += cost_of(e)
-    a3, b3, _ = build_pair(item)
+    a3, b3 = build()
     d = a3.diff(b3)
     edited = d.edited_cost()
-    return {'a': ser_tree(a), 'b': ser_tree(b), 'script': script, 'matchings': matchings, 'orders': orders,
+    return {'a': ser_tree(unwrap(a)), 'b': ser_tree(unwrap(b)), 'script': script, 'matchings': matchings, 'orders': orders,
             'flat_total': flat, 'edited_cost': int(edited)}
 
 
